@@ -35,3 +35,8 @@ func (conn *diskConn) VerifFileName() string {
 // VerifDown returns the recording of up connection id, if any.  Unlocked
 // read: only for the task that calls PushConn.
 func (client *Client) VerifDown(id string) *diskConn { return client.down[id] }
+
+// VerifOrigin is the RTP timestamp that is time 0 of the track in the
+// current file, if one is set.  Unlocked read: for probes that run inside
+// functions that are called with the recording's lock held.
+func (t *diskTrack) VerifOrigin() (uint32, bool) { return value(t.origin), valid(t.origin) }
